@@ -8,6 +8,16 @@ CHECKS = {
  'C01': dict(cat='exploration', technique='bounded-exhaustive input enumeration (type universe x positions, declaration feature products, item/member sequences) against an independent reference projection of the dialect',
              text='Every module of three completely enumerated families (type expressions to template depth 2 (3 thorough) in every type position; every flag/arity/default-mask combination per declaration kind; every item sequence <=2 (3) at 7 namespace nestings and member sequence <=2 (3)) is parsed by the real parser and its tree compared field by field with a reference projection written from DOCS.md.',
              note='Reference dialect model (vf/dialect.py) is trusted; bounded identifier pool; depth bounds as stated in evidence.', ref='2/C01'),
+
+ 'C02': dict(cat='exploration', technique='bounded-exhaustive enumeration of (occurrence shape x parameter spelling x concrete argument) in every substitution context, against a reference capture-free substitution',
+             text='Full product of ~35 occurrence shapes (exact with every qualifier, nested to depth 3, scoped T::X, This, look-alikes), 5 parameter spellings and 5 concrete argument kinds, each placed in 19 contexts (class-, method-, function-level parameters; ctor/method/static/property/operator/base/pair); every instantiated type spelling is compared with an independent reference substitution. Thorough adds all ordered shape pairs.',
+             note='Reference substitution semantics (vf/refinst.py) trusted; known findings listed in known_findings.json are reported, not failed.', ref='2/C02'),
+ 'C08': dict(cat='exploration', technique='bounded-exhaustive enumeration of template headers, member-level templates and typedef placements against a reference instantiation (product order, names, C++ spelling)',
+             text='All template headers with up to 2 (3) parameters and list lengths 0..3 (0..5) on classes and functions at namespace depth 0..2, all member-level headers combined with class-level lists, all typedef placements (class/function/foreign, before/after, local/global, with/without list); instantiated tree compared with the reference Cartesian product in order, names and C++ spelling; surrounding non-template declarations must pass through unchanged and in order.',
+             note='Position of typedef instantiations inside their scope is not compared (not part of the statement).', ref='2/C08'),
+ 'C13': dict(cat='exploration', technique='exhaustive differential exploration: every ordered selection of the instantiation list, every parameter renaming, every short history of earlier modules; blocks compared with the single-instantiation run',
+             text='For 5 templated declaration variants: every subset+permutation of a 3 (4) element instantiation list, 9 parameter renamings (incl. swapping T/U and single-letter names), 3 repetitions and every history of <=1 (2) earlier modules; the pybind registration, MATLAB classdef/function file and id-normalised MEX routines of each instantiation must equal those of the single-instantiation run.',
+             note='Differential oracle: no expected values; MATLAB ids normalised through the dispatch table.', ref='2/C13'),
 }
 NOT_YET = 'check not built yet in this session (see DESIGN.md for the planned exhaustive exploration)'
 
